@@ -149,6 +149,26 @@ def main(tier, write_baseline=False):
         run.add("C04/shape/" + name, st, "rule-engine", detail=detail)
         if ok is False:
             refuted.append(("C04/shape/" + name, detail))
+    def shape_replay(_name):
+        # the clause the shape contracts carry (one emitted element per parameter, in order), by executing emitted programs
+        pool_ = domain.param_pool(["int", "str", "bool", "Optional[int]"], docs=["the {name}"])
+        irs_ = list(domain.irs(1, pool_, suffix_defaults=True)) + list(domain.irs(3, pool_, sample=60, seed=1, suffix_defaults=True))
+        # parameters the emitters might be tempted to skip: no description, private name, kwargs-like name
+        from collections import OrderedDict
+
+        for names_, docs_ in ((("alpha", "_hidden", "b_id"), ("the alpha", "the hidden", "the b_id")), (("alpha", "quiet", "b_id"), ("the alpha", "", "the b_id")),
+                              (("_a", "b"), ("", "the b")), (("alpha", "extra_kwargs_like", "b_id"), ("the alpha", "the extra", "the b_id"))):
+            irs_.append({"name": "Conf", "doc": "Summary of it.", "returns": None,
+                         "params": OrderedDict((n_, dict({"typ": "int", "default": i_ + 1}, **({"doc": d_} if d_ else {}))) for i_, (n_, d_) in enumerate(zip(names_, docs_)))})
+        cells_ = [(f, s_) for f in ("class", "function", "argparse") for s_ in ("rest",)]
+        _n, _r, fl = M.run(cells_, irs_, exposes)
+        for key, (cell, ir, what) in fl.items():
+            cls = "|".join(str(k) for k in key)
+            if run.match_finding({"class": cls, "obligation": "C04/bounded/%s" % key[0]}) is None:
+                return {"cell": list(cell), "ir": json.loads(json.dumps(ir, default=str)), "what": what[:300]}
+        return None
+
+    refuted, shape_inputs = run.confirm_or_undecide(refuted, shape_replay, is_rule=lambda n: True)
     if write_baseline:
         common.write_baseline("C04", [n for n, o in run.obligations.items() if o["status"] == "proved"])
     compare_baseline(run, set(run.obligations))
@@ -172,7 +192,7 @@ def main(tier, write_baseline=False):
             if r:
                 fails.setdefault(("does-not-compile", c[0], c[1], "documented" if ir["doc"] or any(p.get("doc") for p in ir["params"].values()) else "undocumented", str(len(ir["params"]))), (c, ir, r))
     for name, detail in refuted:
-        run.violation(name, detail, solver_output={"rule": detail})
+        run.violation(name, detail, failing_input=shape_inputs.get(name), solver_output={"rule": detail})
     M.report(run, "C04/bounded", fails)
     common.apply_controls(run, tier)
     return run.finish(explanation="The property's specification is the interpreter; no contract within reach of the deductive engine carries it. PROVED: only three shape contracts (one emitted element per parameter). "
